@@ -74,7 +74,7 @@ var atoms = []struct {
 var stmtAtoms = []string{"assign-oob", "assign-string", "assign-immutable", "not-iterable", "selector-assign-nonmap"}
 
 var forms = []string{"exprstmt", "define", "assign-global-like", "if-cond", "for-cond", "return", "call-arg", "array-elem", "compound-assign", "index-of"}
-var placements = []string{"copied-func", "plain", "in-if-body", "in-else-body", "in-for-body", "in-forin-body", "after-dead-code", "in-nested-func", "in-closure", "module-func", "module-top"}
+var placements = []string{"iife", "main-offset0-import", "module-offset0-later-module", "copied-func", "plain", "in-if-body", "in-else-body", "in-for-body", "in-forin-body", "after-dead-code", "in-nested-func", "in-closure", "module-func", "module-top"}
 var callForms = []string{"define", "exprstmt", "return", "if-cond", "arg"}
 
 // prelude defines the variables the atoms use (as locals of the failing function / globals in main).
@@ -144,8 +144,10 @@ func failingStmt(c Case, inFunc bool) []gen.Stmt {
 func place(c Case, fs []gen.Stmt) (body []gen.Stmt) {
 	filler := gen.Set(gen.I("res"), gen.N("9"))
 	switch c.Placement {
-	case "plain", "module-func", "module-top", "copied-func":
+	case "plain", "module-func", "module-top", "copied-func", "iife", "main-offset0-import":
 		return append([]gen.Stmt{filler}, fs...)
+	case "module-offset0-later-module":
+		return fs
 	case "in-if-body":
 		return []gen.Stmt{&gen.If{Cond: gen.B("==", gen.I("one"), gen.N("1")), Then: append([]gen.Stmt{filler}, fs...)}, filler}
 	case "in-else-body":
@@ -200,8 +202,21 @@ func build(c Case) *gen.Program {
 		return nil
 	}
 	inFunc := c.Depth > 0 || c.Placement == "module-func" || c.Placement == "module-top"
-	if c.Placement == "after-dead-code" || c.Placement == "copied-func" {
+	if c.Placement == "after-dead-code" || c.Placement == "copied-func" || c.Placement == "iife" {
 		if c.Depth == 0 {
+			return nil
+		}
+	}
+	switch c.Placement {
+	case "main-offset0-import":
+		// main consists of the bare expression statement import("mod") at offset 0; the module fails
+		if c.Depth != 0 || c.Form == "return" {
+			return nil
+		}
+	case "module-offset0-later-module":
+		// the module's FIRST statement fails (position = offset 0 of its file) and another module file
+		// is added to the file set after it; only self-contained atoms qualify
+		if c.Depth != 0 || c.Atom != "binop-invalid" || (c.Form != "exprstmt" && c.Form != "define") {
 			return nil
 		}
 	}
@@ -227,6 +242,19 @@ func build(c Case) *gen.Program {
 	p := &gen.Program{}
 	full := append(prelude(), body...)
 	switch c.Placement {
+	case "main-offset0-import":
+		p.Modules = map[string][]gen.Stmt{"mod": append(full, &gen.Export{X: gen.I("res")})}
+		p.Main = []gen.Stmt{&gen.ExprStmt{X: &gen.Import{Name: "mod"}}}
+		return p
+	case "module-offset0-later-module":
+		lit := gen.B("+", gen.N("1"), gen.S(`"s"`))
+		var first gen.Stmt = &gen.ExprStmt{X: lit}
+		if c.Form == "define" {
+			first = gen.Def("fresh", lit)
+		}
+		p.Modules = map[string][]gen.Stmt{"mod": {first, &gen.Export{X: gen.N("1")}}, "zlate": {&gen.Export{X: gen.N("2")}}}
+		p.Main = []gen.Stmt{gen.Def("a", &gen.Import{Name: "mod"}), gen.Def("b", &gen.Import{Name: "zlate"})}
+		return p
 	case "module-top":
 		if c.Form == "return" {
 			return nil
@@ -252,6 +280,11 @@ func build(c Case) *gen.Program {
 		}
 		main = append(main, gen.Def("f0", &gen.FuncLit{Body: full}))
 		target = gen.I("f0")
+		if c.Placement == "iife" {
+			// a zero-argument function literal invoked immediately (never stored in a variable)
+			main = []gen.Stmt{gen.Def("before", gen.N("1"))}
+			target = &gen.FuncLit{Body: full}
+		}
 		if c.Placement == "copied-func" {
 			// the function value is copied (copy builtin) before it is called
 			main = append(main, gen.Def("fc", gen.C(gen.I("copy"), gen.I("f0"))))
